@@ -65,14 +65,29 @@ theorem shape_zeros2 {ncols maxrow m : Nat} {offs : List Nat} {inds : List (List
   · cases hr; simp
   · cases hr
 
-theorem driver_step_g {file : Bytes} {crs ncols : Nat} {im : List Nat} {hrow : List Cell} {rows : List (List Cell)}
-    (st : SettingR file crs ncols im hrow rows) {F : Nat → List Bytes → Imp} {good : Nat → Bytes → Prop}
-    (hhom : ImpHom ncols F good) (hgood : ∀ c ∈ im, ∀ cell ∈ column (values rows) c, good c cell) {s : DS} {q e maxrow : Nat}
+/-- **one driver iteration, split at the importers.** From any state of the invariant the iteration calls the kernel, which
+    stages a block of `a` complete records (the records `e-1 … e-1+a-1` of the file), and hands the block to the importers
+    (`importAll`). Whatever the importers are:
+    * (error continuation) if an importer raises, the iteration raises the same error — nothing else of the iteration can
+      fail before it;
+    * (ok continuation) if the importers end in the states `F c (first e-1+a records)`, the iteration succeeds, keeps the
+      invariant with `nextE e a` lines consumed and decreases the measure `mu`. -/
+theorem driver_step_split {file : Bytes} {crs ncols : Nat} {im : List Nat} {hrow : List Cell} {rows : List (List Cell)}
+    (st : SettingR file crs ncols im hrow rows) {F : Nat → List Bytes → Imp} {s : DS} {q e maxrow : Nat}
     (hinv : DI F file (crs * Gen.Csv.CHUNK_ROW_FACTOR * ncols) ncols im hrow rows s q e maxrow)
     (hlt : bnd hrow rows q < file.length) :
-    ∃ s' q' e' maxrow', driverStep file (crs * Gen.Csv.CHUNK_ROW_FACTOR * ncols) ncols im s = .ok s' ∧
-      DI F file (crs * Gen.Csv.CHUNK_ROW_FACTOR * ncols) ncols im hrow rows s' q' e' maxrow' ∧
-      mu rows ncols s'.offs q' maxrow' < mu rows ncols s.offs q maxrow := by
+    ∃ (o : KOut) (a : Nat), (e - 1) + a ≤ rows.length ∧
+      Shape ncols maxrow s.offs o.inds o.vals ∧
+      (∀ c, c < ncols → ColOK s.offs o.inds o.vals c (column (values ((rows.drop (e - 1)).take a)) c)) ∧
+      (∀ c, c < ncols →
+        offAt s.offs c + (column (values ((rows.drop (e - 1)).take a)) c).flatten.length < offAt s.offs (c + 1)) ∧
+      (∀ c, c < ncols → (column (values ((rows.drop (e - 1)).take a)) c).length = a) ∧
+      (∀ err, importAll o.inds o.vals s.offs a im s.imps = .error err →
+        driverStep file (crs * Gen.Csv.CHUNK_ROW_FACTOR * ncols) ncols im s = .error err) ∧
+      (importAll o.inds o.vals s.offs a im s.imps = .ok (im.map (fun c => F c (doneCols rows (nextE e a - 1) c))) →
+        ∃ s' q' maxrow', driverStep file (crs * Gen.Csv.CHUNK_ROW_FACTOR * ncols) ncols im s = .ok s' ∧
+          DI F file (crs * Gen.Csv.CHUNK_ROW_FACTOR * ncols) ncols im hrow rows s' q' (nextE e a) maxrow' ∧
+          mu rows ncols s'.offs q' maxrow' < mu rows ncols s.offs q maxrow) := by
   have hwpos : 0 < crs * Gen.Csv.CHUNK_ROW_FACTOR * ncols := Nat.mul_pos (Nat.mul_pos st.crsPos (by decide)) st.nc
   obtain ⟨rowsW, nxt, hcontent, ⟨kk, hpart⟩, hrowsW, hnxt, hprog⟩ := window_decomp st hinv.qe hlt hinv.inwin
   have hcall := driverStep_call hinv hlt hwpos
@@ -132,24 +147,9 @@ theorem driver_step_g {file : Bytes} {crs ncols : Nat} {im : List Nat} {hrow : L
   have hlenE : ∀ c, c < ncols → (stageRows (fun _ => []) (rowsW.take a) c).length = a := by
     intro c hc
     rw [stageRows_length (rowsW.take a) (fun r hr => htabW r (List.mem_of_mem_take hr)) c hc, hlenA]
-  have himp : importAll o.inds o.vals s.offs o.written.toNat im s.imps =
-      .ok (im.map (fun c => F c (doneCols rows (nextE e a - 1) c))) := by
-    have hsub : ∀ c ∈ im, ∀ cell ∈ stageRows (fun _ => []) (rowsW.take a) c, good c cell := by
-      intro c hc cell hcell
-      apply hgood c hc
-      rw [stageRows_col, List.nil_append, htakeA] at hcell
-      exact column_part_subset rows (e - 1) a c hcell
-    have hdone : ∀ c ∈ im, ∀ cell ∈ doneCols rows (e - 1) c, good c cell := by
-      intro c hc cell hcell
-      apply hgood c hc
-      have := column_part_subset rows 0 (e - 1) c (cell := cell) (by simpa [doneCols] using hcell)
-      exact this
-    rw [hinv.imps, hwr,
-      importAll_hom hhom (D := doneCols rows (e - 1)) hres.shape hres.cols hres.caps hlenE im st.imOk hdone hsub]
-    congr 1
-    apply List.map_congr_left
-    intro c _
-    rw [stageRows_col, List.nil_append, htakeA, doneCols_add, nextE_pred]
+  have hE : ∀ c, stageRows (fun _ => []) (rowsW.take a) c = column (values ((rows.drop (e - 1)).take a)) c := by
+    intro c
+    rw [stageRows_col, List.nil_append, htakeA]
   have hzero' : ∀ c, c < ncols → ∃ r, o.inds[c]? = some r ∧ r[0]? = some 0 := by
     intro c hc
     obtain ⟨⟨r, hr, hk⟩, _⟩ := hres.cols c hc
@@ -159,6 +159,15 @@ theorem driver_step_g {file : Bytes} {crs ncols : Nat} {im : List Nat} {hrow : L
   have hhh' : false = (nextE e a == 0) := by
     have : nextE e a ≠ 0 := by omega
     simp [this]
+  refine ⟨o, a, by omega, hres.shape, fun c hc => by rw [← hE]; exact hres.cols c hc,
+    fun c hc => by rw [← hE]; exact hres.caps c hc, fun c hc => by rw [← hE]; exact hlenE c hc, ?_, ?_⟩
+  · intro err herr
+    have herr' : importAll o.inds o.vals s.offs o.written.toNat im s.imps = .error err := by rw [hwr]; exact herr
+    rw [hcall]
+    simp only [afterKernel, hwneg, if_false, herr']
+  intro himp0
+  have himp : importAll o.inds o.vals s.offs o.written.toNat im s.imps =
+      .ok (im.map (fun c => F c (doneCols rows (nextE e a - 1) c))) := by rw [hwr]; exact himp0
   rcases hout with ⟨hif, hvf, hvfc, haeq⟩ | ⟨hif, hvf, hvfc, haeq⟩ | ⟨hif, hvf, j, hj, hvfc, hbound⟩
   · -- no buffer filled: the window is done
     have hq' : q < nextE e a := by
@@ -175,7 +184,7 @@ theorem driver_step_g {file : Bytes} {crs ncols : Nat} {im : List Nat} {hrow : L
       omega
     have hstep := afterKernel_plain (ncols := ncols) (content := readWindow file (bnd hrow rows q) w)
       (start := bnd hrow rows e - bnd hrow rows q) hwneg himp hif hvf hnp0
-    refine ⟨_, nextE e a, nextE e a, maxrow, by rw [hcall, hstep], ?_, ?_⟩
+    refine ⟨_, nextE e a, maxrow, by rw [hcall, hstep], ?_, ?_⟩
     · exact {
         qe := Nat.le_refl _
         el := hel'
@@ -202,7 +211,7 @@ theorem driver_step_g {file : Bytes} {crs ncols : Nat} {im : List Nat} {hrow : L
     have hstep := afterKernel_inds (ncols := ncols) (content := readWindow file (bnd hrow rows q) w)
       (start := bnd hrow rows e - bnd hrow rows q) hwneg himp hif hvf
     rw [hhead] at hstep
-    refine ⟨_, q, nextE e a, maxrow * Gen.Csv.LARGER_FACTOR, by rw [hcall, hstep], ?_, ?_⟩
+    refine ⟨_, q, maxrow * Gen.Csv.LARGER_FACTOR, by rw [hcall, hstep], ?_, ?_⟩
     · exact {
         qe := hqe'
         el := hel'
@@ -251,7 +260,7 @@ theorem driver_step_g {file : Bytes} {crs ncols : Nat} {im : List Nat} {hrow : L
       rw [hpart, List.take_take] at hbound
       have := part_le rows (e - 1) (min (a + 1) kk) j
       omega
-    refine ⟨_, q, nextE e a, maxrow, by rw [hcall, hstep], ?_, ?_⟩
+    refine ⟨_, q, maxrow, by rw [hcall, hstep], ?_, ?_⟩
     · exact {
         qe := hqe'
         el := hel'
@@ -293,5 +302,32 @@ theorem driver_step_g {file : Bytes} {crs ncols : Nat} {im : List Nat} {hrow : L
           have := hinv.bud c hc
           split <;> split <;> omega)
       omega
+
+/-- one iteration for a family of append homomorphisms on acceptable cells: it succeeds, keeps the invariant and decreases the
+    measure -/
+theorem driver_step_g {file : Bytes} {crs ncols : Nat} {im : List Nat} {hrow : List Cell} {rows : List (List Cell)}
+    (st : SettingR file crs ncols im hrow rows) {F : Nat → List Bytes → Imp} {good : Nat → Bytes → Prop}
+    (hhom : ImpHom ncols F good) (hgood : ∀ c ∈ im, ∀ cell ∈ column (values rows) c, good c cell) {s : DS} {q e maxrow : Nat}
+    (hinv : DI F file (crs * Gen.Csv.CHUNK_ROW_FACTOR * ncols) ncols im hrow rows s q e maxrow)
+    (hlt : bnd hrow rows q < file.length) :
+    ∃ s' q' e' maxrow', driverStep file (crs * Gen.Csv.CHUNK_ROW_FACTOR * ncols) ncols im s = .ok s' ∧
+      DI F file (crs * Gen.Csv.CHUNK_ROW_FACTOR * ncols) ncols im hrow rows s' q' e' maxrow' ∧
+      mu rows ncols s'.offs q' maxrow' < mu rows ncols s.offs q maxrow := by
+  obtain ⟨o, a, _, hsh, hcols, hcaps, hlenE, _, hok⟩ := driver_step_split st hinv hlt
+  have himp : importAll o.inds o.vals s.offs a im s.imps =
+      .ok (im.map (fun c => F c (doneCols rows (nextE e a - 1) c))) := by
+    have hsub : ∀ c ∈ im, ∀ cell ∈ column (values ((rows.drop (e - 1)).take a)) c, good c cell :=
+      fun c hc cell hcell => hgood c hc cell (column_part_subset rows (e - 1) a c hcell)
+    have hdone : ∀ c ∈ im, ∀ cell ∈ doneCols rows (e - 1) c, good c cell := by
+      intro c hc cell hcell
+      apply hgood c hc
+      exact column_part_subset rows 0 (e - 1) c (cell := cell) (by simpa [doneCols] using hcell)
+    rw [hinv.imps, importAll_hom hhom (D := doneCols rows (e - 1)) hsh hcols hcaps hlenE im st.imOk hdone hsub]
+    congr 1
+    apply List.map_congr_left
+    intro c _
+    rw [doneCols_add, nextE_pred]
+  obtain ⟨s', q', maxrow', h1, h2, h3⟩ := hok himp
+  exact ⟨s', q', _, maxrow', h1, h2, h3⟩
 
 end Exetera.Csv
